@@ -305,7 +305,7 @@ def key_family(shard, n_shards):
     for case in c09.cases('quick', 0):
         n, m = len(case['src']), len(case['tgt'])
         for excl in [None, []] + [[(a, b)] for a in range(n) for b in range(m)]:
-            for exv in ('none', 'all', 'src0', 'ovr'):
+            for exv in ('none', 'all', 'src0', 'src0_rev', 'ovr', 'ovr_rev'):
                 i += 1
                 if i % n_shards != shard:
                     continue
@@ -317,8 +317,12 @@ def key_family(shard, n_shards):
                     ex = NodeExistencePatterns([NodeExistence()])
                 elif exv == 'src0':
                     ex = NodeExistencePatterns([NodeExistence(), NodeExistence(src_exists=[False]+[True]*(n-1))])
-                else:
+                elif exv == 'src0_rev':   # the same patterns in another order are other settings (patterns are addressed by index)
+                    ex = NodeExistencePatterns([NodeExistence(src_exists=[False]+[True]*(n-1)), NodeExistence()])
+                elif exv == 'ovr':
                     ex = NodeExistencePatterns([NodeExistence(), NodeExistence(tgt_n_conn_override={m-1: [0, 1]})])
+                else:
+                    ex = NodeExistencePatterns([NodeExistence(tgt_n_conn_override={m-1: [0, 1]}), NodeExistence()])
                 excluded = None if excl is None else [(src[a], tgt[b]) for a, b in excl]
                 yield MatrixGenSettings(src, tgt, excluded=excluded, existence=ex)
 
